@@ -119,6 +119,10 @@ pub struct MsgObs {
     pub tcp_eof: bool,
     pub tcp_error: Option<String>,
     pub connect_failed: bool,
+    /// The server's `send_to` for this client failed (injected).
+    pub reply_send_failed: bool,
+    /// The server's `accept` for this connection failed (injected).
+    pub aborted_at_accept: bool,
 }
 
 #[derive(Clone, Debug)]
@@ -200,6 +204,8 @@ async fn run_message(index: usize, m: MsgPlan, server: SocketAddr, label_prefix:
         tcp_eof: false,
         tcp_error: None,
         connect_failed: false,
+        reply_send_failed: false,
+        aborted_at_accept: false,
     };
     let payload = unhex(&m.bytes_hex);
     let label = format!("{label_prefix}{index}");
@@ -218,6 +224,8 @@ async fn run_message(index: usize, m: MsgPlan, server: SocketAddr, label_prefix:
                 Ok(Err(_)) | Err(_) => break,
             }
         }
+        obs.reply_send_failed =
+            simseam::world::with(|w| w.net.send_failed_to.iter().any(|a| a.port() == local.port()));
     } else {
         let stream = TcpStream::connect_labeled(server, &label).await;
         let Ok(mut stream) = stream else {
@@ -288,6 +296,7 @@ async fn run_message(index: usize, m: MsgPlan, server: SocketAddr, label_prefix:
         if !blob.is_empty() {
             obs.replies.push((first_at, blob));
         }
+        obs.aborted_at_accept = simseam::world::with(|w| w.net.accept_aborted.contains(&label));
     }
     obs
 }
